@@ -77,6 +77,22 @@ theorem po_spelling_invariant_of_load_spells {Lines Cat F σ τ : Type}
   intro retry
   rw [hload cat l1 h1 retry, hload cat l2 h2 retry]
 
+/-- The same, in the shape C10 proves it: the loader's result is determined by the catalog only UP TO A VIEW (polib's
+    `linenum` differs between spellings; `entry_attrs_pinned` below shows lib/check/ never reads it), and `ctx` is built
+    from the view. -/
+theorem po_spelling_invariant_of_load_spells_view {Lines Cat F V σ τ : Type}
+    (Spells : Cat → Lines → Prop) (loadPO : Lines → Bool → Except LoadErr F) (view : F → V)
+    (expected : Cat → Bool → Except LoadErr V)
+    (hload : ∀ cat l, Spells cat l → ∀ retry, mapLoad view (loadPO l retry) = expected cat retry)
+    (cat : Cat) (l1 l2 : Lines) (h1 : Spells cat l1) (h2 : Spells cat l2)
+    (statOk : Bool) (ext : Ext) (init : V → Bool → σ) (stages : List (Stage σ τ)) :
+    check statOk ext (loadPO l1) (fun f b => init (view f) b) stages
+      = check statOk ext (loadPO l2) (fun f b => init (view f) b) stages := by
+  rw [check_map_load statOk ext (loadPO l1) view init stages, check_map_load statOk ext (loadPO l2) view init stages]
+  apply check_congr_load
+  intro retry
+  rw [hload cat l1 h1 retry, hload cat l2 h2 retry]
+
 /-! ## 3. transcoding -/
 
 /-- a stage that treats related states alike and prints identical tags -/
